@@ -716,6 +716,19 @@ theorem allEntries_complete (e : Entry) : e ∈ allEntries := by cases e <;> dec
 
 example : MJ.Gen.c17NameFlow.length ≥ 8 ∧ MJ.Gen.c17StmtRoutes.length ≥ 6 := by decide
 
+/-- `LoaderStore::get` in the source has the shape `Env.get` models: the name is looked up among the
+    registered templates, then in the memo map under the SAME name (`name.into()`); on a miss the
+    loader closure is called with that name, and what it returned (`loader_result`) — nothing
+    else — is compiled and stored under that name.  (Table `C17_STORE_GET`: every call in `get`
+    whose arguments mention the name or the loader's result.) -/
+theorem store_get_as_modelled :
+    MJ.Gen.c17StoreGetCalls =
+      [("self.borrowed_templates.get", "name"), (".get_or_try_insert", "&name.clone()"), ("loader", "&name"),
+       ("Error::new_not_found", "&name"), ("self.make_owned_template", "name,ok!(loader_result)")] ∧
+    MJ.Gen.c17StoreGetNameBindings = ["name.into()"] := by decide
+
+example : MJ.Gen.c17StoreGetCalls.length = 5 := by decide
+
 /-- **Every call of the loader passes through `safe_join`.**  Whatever the entry point
     (`Environment::get_template`, `State::get_template`, include, import, from-import, extends, a
     list of include choices), whatever the path-join callback of the host answers (ANY function of
